@@ -17,6 +17,9 @@ One request per line, one reply per line; anything malformed is answered `bad-op
   force  <slot> <call>                    → val x <stream-hex> <…> | raise …
   check  <slot> <cb> <call>               → flag <0|1> <stream-hex> | raise filter <site>
   clearfn <slot> | clearall | fresh       → ok
+  clearloc <n> fid{n}                     Memory.clear() of ONE of several cache directories: the model's
+                                          store is the disjoint union of the directories (function ids are
+                                          per directory); this is `clearAll` on that component      → ok
   evict <n> (<fid> <stream-hex>){n}       → ok
   evictops <n> i{n}                       evict the entries of the i-th call/shelve/get/force/check
                                           requests since `reset` (0-based)                    → ok
@@ -31,7 +34,9 @@ Interpretation: `E.val id` = the declared value (`None` for an undeclared id: re
 before that can matter), `E.name n` = the identifier `p<n>` (the harness names its parameters so);
 the digest `H` = the table, and for a stream that is not in the table a tagged copy of the stream
 itself (injective; the table only has to hold the digests `Hasher` computes on its fallback path —
-the top-level stream is reported and the harness compares `md5(stream)` with the real args id).
+the top-level stream is reported and the harness compares `md5(stream)` with the real args id;
+`missing-digest` is reported instead when a stand-in digest ended up inside the stream: the model's
+stream of some key differs from every stream the implementation hashed).
 The cached functions return their non-ignored bound arguments (`R = List (Nat × Val)`), as the
 harness' generated functions do; an `x` / `h` flag says executed / served from the store.
 -/
@@ -239,7 +244,10 @@ def xh (executed : Bool) : String := if executed then "x" else "h"
 /-- The stream of the call (what the harness compares with the real args id), or empty. -/
 def streamHex (st : DState) (fn : Fn R) (c : Call) : String :=
   match argDict fn.cal fn.ig c with
-  | .ok d => hexOf (stream (digestOf st) (envOf st) d)
+  | .ok d =>
+    let s := stream (digestOf st) (envOf st) d
+    -- a stand-in digest inside the stream: the model hashed a key whose stream the table lacks
+    if s.any (· ≥ 256) then "missing-digest" else hexOf s
   | .error _ => "-"
 
 def showOut (st : DState) (fn : Fn R) (c : Call) : Out R → String
@@ -340,6 +348,12 @@ def handle (st : DState) (line : String) : DState × String :=
     | some (ids, []) =>
       let keys := ids.map fun p => (p.1, digestOf st p.2)
       ({ st with store := (MemoryCache.step (st.ver.getD .fixed) (digestOf st) (envOf st) st.store (.evict keys : Op R)).2 }, "ok")
+    | _ => bad
+  | "clearloc" :: ts =>
+    match parseCounted pNat ts with
+    | some (fids, []) =>
+      ({ st with store := { coded := st.store.coded.filter (fun f => !fids.contains f)
+                            entries := st.store.entries.filter (fun e => !fids.contains e.1.1) } }, "ok")
     | _ => bad
   | "evictops" :: ts =>
     match parseCounted pNat ts with
